@@ -77,6 +77,7 @@ pub struct World {
     last_state: Option<Value>,
     pub ta_obs: bool,
     pub cms_obs: bool,
+    pub dead: bool,
 }
 
 fn signer_store(s: &Sys) -> AggregateStore<TrustAnchorSigner> {
@@ -95,7 +96,7 @@ impl World {
             slots: vec![], cms: BTreeMap::new(), nonces: Tokens::new("N"), idkeys: vec![],
             prev_ids: HashMap::new(), named_keys: HashMap::new(), seen: HashMap::new(),
             last_state: None,
-            ta_obs: profile != "cms", cms_obs: profile != "ta",
+            ta_obs: profile != "cms", cms_obs: profile != "ta", dead: false,
         }
     }
 
@@ -1295,6 +1296,11 @@ impl World {
                 format!("PANIC:{}", msg.replace(char::is_whitespace, "_"))
             }
         };
+        if ret.starts_with("PANIC") {
+            // a panic inside krill leaves poisoned locks behind: the case ends here
+            self.dead = true;
+            return json!({"ret": ret, "cmds": [], "chg": []}).to_string();
+        }
         let after = self.snapshot();
         let chg = Self::changed(&before, &after);
         let mut o = Map::new();
